@@ -440,6 +440,9 @@ def run(R):
     R.floor('budget_classes', 20, 'set')
     R.floor('standalone_cases', 100)
     R.floor('edited_serialisations', 100)
+    if R.nshards == 1:
+        R.floor('grams_byte_lengths', 16, 'set')
+        R.floor('extra_value_byte_lengths', 32, 'set')
     R.floor('edit_kinds', 5, 'set')
 
 
@@ -461,6 +464,24 @@ def standalone(R, L, rng, quick):
         if not R.check(c.hash == want.hash, f'{name}-encoding-differs', f'{name} cell differs from the block.tlb encoding', dict(W, want_boc=rc.encode_boc([want]))):
             return None
         return c
+    # amounts of every byte length: Grams = VarUInteger 16 (0..15 bytes), extra currencies = VarUInteger 32 (0..31 bytes); smallest and largest value of each length
+    if R.shard == 0:
+        for nbytes in range(16):
+            for g in ({0} if nbytes == 0 else {1 << (8 * (nbytes - 1)), (1 << (8 * nbytes)) - 1, (1 << (8 * nbytes - 1))}):
+                cc = {'grams': g, 'other': {}}
+                W = {'grams_bytes': nbytes, 'grams': str(g)}
+                c = same_cell('CurrencyCollection', lambda: L.cc(cc).serialize(), T.cell_of(T.enc_currency_collection, cc), W)
+                st, back = mon.call(lambda: L.blk.CurrencyCollection.deserialize(bridge.to_lib(T.cell_of(T.enc_currency_collection, cc)).begin_parse()))
+                R.check(st == 'ok' and L.l_cc(back) == T.norm_cc(cc), 'CurrencyCollection-roundtrip-differs', f'CurrencyCollection with a {nbytes}-byte amount parses differently: {mon.srepr(back)}', W)
+                R.cover('grams_byte_lengths', nbytes)
+        for L2 in range(32):
+            for v in ({0} if L2 == 0 else {1 << (8 * (L2 - 1)), (1 << (8 * L2)) - 1}):
+                cc = {'grams': 7, 'other': {0x11: v, 0xFFFFFFFF: 1}}
+                W = {'extra_value_bytes': L2, 'value': str(v)}
+                same_cell('CurrencyCollection', lambda: L.cc(cc).serialize(), T.cell_of(T.enc_currency_collection, cc), W)
+                st, back = mon.call(lambda: L.blk.CurrencyCollection.deserialize(bridge.to_lib(T.cell_of(T.enc_currency_collection, cc)).begin_parse()))
+                R.check(st == 'ok' and L.l_cc(back) == T.norm_cc(cc), 'CurrencyCollection-roundtrip-differs', f'extra currency with a {L2}-byte value parses differently: {mon.srepr(back)}', W)
+                R.cover('extra_value_byte_lengths', L2)
     subsets = [[p for j, p in enumerate(('split_depth', 'special', 'code', 'data', 'library')) if (m >> j) & 1] for m in range(32)]
     for i in range(n):
         # StateInit: every subset of its five optional parts
